@@ -103,6 +103,11 @@ func execOp(line string) string {
 		r := NewR(args)
 		b := exactCap(r.H())
 		return measured(len(b), func() string { return execDec(kind, b) })
+	case "decp":
+		// a type's own decoder on a buffer whose capacity extends past its length into foreign (poisoned) memory
+		plain := NewR(args).H()
+		b := poisoned(plain)
+		return measured(len(b), func() string { return execDec(kind, b) })
 	case "enc":
 		return guarded(func() string { return execEnc(kind, NewR(args)) })
 	case "size":
@@ -361,6 +366,38 @@ func execOp(line string) string {
 			}
 			return "ok " + one(a) + " ; " + one(b) + " ; " + one(append(append([]byte{}, a...), b...))
 		})
+	case "rembto":
+		// ReceiverEstimatedMaximumBitrate.MarshalTo into a caller's buffer of the given length: `rembto <body> <buflen>`
+		return guarded(func() string {
+			r := NewR(args)
+			p := getBody(r, "REMB").(*rtcp.ReceiverEstimatedMaximumBitrate)
+			bl := r.N()
+			buf := make([]byte, bl)
+			for i := range buf {
+				buf[i] = 0xAA
+			}
+			n, err := p.MarshalTo(buf)
+			if err != nil {
+				return "err"
+			}
+			if n < 0 || n > bl {
+				return fmt.Sprintf("mutated MarshalTo reports %d octets for a buffer of %d", n, bl)
+			}
+			for _, x := range buf[n:] {
+				if x != 0xAA {
+					return "mutated caller-buffer-behind-the-packet"
+				}
+			}
+			return fmt.Sprintf("ok %d %s", n, hexOrDash(buf[:n]))
+		})
+	case "newcname":
+		return guarded(func() string {
+			r := NewR(args)
+			ssrc := uint32(r.U())
+			return "ok " + bodyTokens(rtcp.NewCNAMESourceDescription(ssrc, string(r.H())))
+		})
+	case "itemlen":
+		return guarded(func() string { return fmt.Sprintf("ok %d", getItem(NewR(args)).Len()) })
 	case "crt":
 		// CompoundPacket.Marshal, then CompoundPacket.Unmarshal of the result
 		return guarded(func() string {
